@@ -75,6 +75,7 @@ Proof.
   - exists flex, rc, body. split; assumption.
   - rewrite Hq in Hq'. discriminate.
 Qed.
+Print Assumptions c12_exact_delivery_nonquirk.
 
 (* send() takes the next id from the translated _next_correlation_id and queues it *)
 Theorem c12_send_assigns :
@@ -85,6 +86,7 @@ Theorem c12_send_assigns :
   reqs s' = reqs s ++ [mkE (nsent s) (Some (NextCorr.post (corr s))) api flex quirk false] /\
   NextCorr.py (corr s) = Ok (NextCorr.post (corr s)).
 Proof. exact send_assigns. Qed.
+Print Assumptions c12_send_assigns.
 
 (* 3. Failure fails all.  In every reachable state with the connection closed the queue is
    empty and NO waiter is pending: each of the nsent waiters has an outcome.  EOF, reset and
@@ -152,6 +154,16 @@ Proof.
   exact corr_range_run.
 Qed.
 Print Assumptions c12_corr_range.
+
+(* ... and in the model: along any run of fewer than 2^31 events from a counter in range, the
+   correlation ids of the requests in flight (raw SASL packets carry none) are pairwise
+   distinct — whatever mixture of sends, no-response sends, deliveries, timeouts and wraps *)
+Theorem c12_outstanding_ids_distinct :
+  forall decodes c0 evs,
+  0 <= c0 < 2147483648 -> Z.of_nat (length evs) <= 2147483648 ->
+  NoDup (corrs (reqs (run decodes (init c0) evs))).
+Proof. exact outstanding_distinct. Qed.
+Print Assumptions c12_outstanding_ids_distinct.
 
 (* the wrap itself *)
 Example c12_wrap : NextCorr.post 2147483647 = 0 /\ iter_corr 3 2147483646 = 1.
